@@ -2,6 +2,7 @@
 #define LLTD_RESPONDER_AUTOMATA_H
 
 #include <stdbool.h>
+#include <stddef.h>
 #include <stdint.h>
 
 #include "lltdProtocol.h"
@@ -121,6 +122,8 @@ bool session_table_all_complete(session_table *table);
 void session_table_clear(session_table *table);
 
 int derive_session_event(const void *frame, session_table *table, const uint8_t *our_mac);
+/* Same, for a frame of which frame_len bytes were received: nothing beyond them is read. */
+int derive_session_event_len(const void *frame, size_t frame_len, session_table *table, const uint8_t *our_mac);
 
 void band_init_stats(band_state *band);
 void band_update_stats(band_state *band);
